@@ -86,6 +86,31 @@ def parse_family(run, prop, want, rule_text, extra_cases=None, kind=None):
         with open(cases, "a", encoding="utf-8") as f:
             for c in extra_cases:
                 f.write(json.dumps(c, ensure_ascii=False) + "\n")
+    # code -> spec: larger random documents (up to ~40 records) glued together from the generated documents and
+    # mutants, with zero to three faults; the recogniser KParse classifies each of them when judging
+    import random
+    rnd = random.Random(run.seed)
+    pool = [json.loads(l) for l in open(cases, encoding="utf-8") if l.strip()]
+    good = [c["text"] for c in pool if c.get("claim") == "Conforming"]
+    bad = [c["text"] for c in pool if c.get("claim") == "Violating"]
+    if not good:
+        good = ["2020-01-01\n    1h\n", "2020-01-02 (8h!)\nSummary\n\t8:00 - 9:00 x\n\t\tmore #t\n", "2020/01/03\n  -30m\n  9:00-?\n",
+                "2019-12-31 (-1h!)\nLine 1\nLine 2\n", "2020-02-29\n   <23:00 - 1:00> long\n      cont\n   0m\n"]
+    nbig = 0
+    if good:
+        with open(cases, "a", encoding="utf-8") as f:
+            for i in range(120 if run.tier == "quick" else 4000):
+                eol = rnd.choice(["\n", "\r\n"])
+                parts = [rnd.choice(good) for _ in range(rnd.randrange(3, 25))]
+                nf = 0 if want == "valid" else (rnd.randrange(1, 4) if want == "invalid" else rnd.randrange(0, 3))
+                for _ in range(nf if bad else 0):
+                    parts[rnd.randrange(len(parts))] = rnd.choice(bad)
+                sep = rnd.choice(["", eol, eol + "  " + eol])
+                text = "".join(p + ("" if p.endswith("\n") else eol) + eol + sep for p in parts)
+                f.write(json.dumps({"kind": kind or "parse", "text": text, "claim": "random", "line": 0, "workers": [2, 7]},
+                                   ensure_ascii=False) + "\n")
+                nbig += 1
+    run.extra["random_large_documents"] = nbig
     obs = run.drive(cases)
     if kind == "view":
         run.postprocess(obs, vlib.decode_json_fields)
